@@ -90,7 +90,7 @@ def shapes : Kind → List (List (Option UInt8)) × List (List Bytes) × Bool
   | .MP3 => ([known [0xFF, 0xFB], known [0xFF, 0xFA], known [0xFF, 0xF3], known [0xFF, 0xF2],
               [some 0xFF, none], unk 2, id3P], [[]], false)
   | .TrueAudio => ([known (ascii "TTA"), id3P], [[]], false)
-  | .FLAC => ([known mfLaC], [[]], true)
+  | .FLAC => ([known mfLaC], [[], [mFLAC]], true)   -- "FLAC" in the window: the vendor string "reference libFLAC" when the comment block follows STREAMINFO
   | .OggVorbis => ([known (ascii "OggS")], [[mVorbis]], true)
   | .OggOpus => ([known (ascii "OggS")], [[mOpus]], true)
   | .OggSpeex => ([known (ascii "OggS")], [[mSpeex]], true)
@@ -119,7 +119,7 @@ def shapes : Kind → List (List (Option UInt8)) × List (List Bytes) × Bool
 /-- FLAC behind an ID3v2 prefix (written by other tools; mutagen's FLAC reads through it):
 the name is needed, the `fLaC` marker may or may not be inside the 128-byte window -/
 def extraShapes : Kind → List (List (Option UInt8) × List Bytes)
-  | .FLAC => [(id3P, []), (id3P, [mfLaC])]
+  | .FLAC => [(id3P, []), (id3P, [mfLaC]), (id3P, [mfLaC, mFLAC])]
   | .AAC => [(known mADIF, [])]
   | .Musepack => [(unk 4, [])]      -- SV4-SV6 streams have no magic: recognised by name only
   | _ => []
